@@ -340,7 +340,7 @@ func (c *Ctx) kindKnown(fn *ssa.Function, b *ssa.BasicBlock, recv ssa.Value, all
 	// local (k := v.Kind(); if k != reflect.Slice {...}) is the same call value.
 	// parameter: every caller establishes the fact
 	if depth < 2 {
-		if p, wrapper := rootParam(recv); p != nil {
+		if p, wrapper := rootParam(recv); p != nil && (recv == ssa.Value(p) || wrapper || !inKinds(22, allowed)) {
 			pi := -1
 			for i, q := range fn.Params {
 				if q == p {
@@ -426,6 +426,13 @@ func (c *Ctx) kindKnownArg(g *ssa.Function, gb *ssa.BasicBlock, _ ssa.Value, arg
 func rootParam(recv ssa.Value) (*ssa.Parameter, bool) {
 	if p, ok := recv.(*ssa.Parameter); ok {
 		return p, false
+	}
+	// reflect.Indirect(p) is p itself when p is known not to be a pointer: the caller's fact about its argument carries
+	// over (the callers of rootParam ask for kinds other than Pointer in that case, see kindKnown)
+	if call, ok := recv.(*ssa.Call); ok && core.StaticCalleeName(&call.Call) == "reflect.Indirect" {
+		if p, ok := call.Call.Args[0].(*ssa.Parameter); ok {
+			return p, false
+		}
 	}
 	if call, ok := recv.(*ssa.Call); ok && core.StaticCalleeName(&call.Call) == "reflect.ValueOf" {
 		x := call.Call.Args[0]
